@@ -73,9 +73,9 @@ CHECKS = {
                 text="Every drawing entry point (8 orientations, both batch settings) emits only groups CASET RASET RAMWR pixels, error paths being prefixes; for the fill methods, set_pixel and every window group draw_iter emits (batched or not) start <= end and the end is inside the framebuffer; fill_solid's repeat count and fill_contiguous's take limit equal (ex-sx+1)*(ey-sy+1); every block the batched draw_iter flushes carries exactly (x_right-x_left+1)*(y_bottom-y_top+1) colours.",
                 note="Level 'other'. The accumulator invariants are derived for two orientations in the quick tier (they do not depend on it) and for all eight, plus the 16-bit-pointer build, in the thorough tier. Four big-endian bytes per address command: C18. That the colours inside a block are the right ones in the right order is C03 (not decided)."),
     "C20": dict(level="other", design="5/C20",
-                technique="event counting on interpreted traces (window set-ups per fill, loop depth of SPI writes), capacity constants read from heapless::Vec type arguments, path-infeasibility rule on the row accumulator's next() under the stated in-bounds precondition",
-                text="Exactly one CASET/RASET/RAMWR per successful fill_solid / fill_contiguous and none in a loop (clear is the default); with batch, draw_iter never falls back to single-pixel bursts and 2 <= row capacity <= block capacity; the row accumulator hands a row on, while pixels keep coming, only on paths where 'the pixel just pulled is the right-hand neighbour on the same line and the row is not full' is infeasible (so a run is cut only at the capacity); no SPI write sits in the per-pixel staging loop.",
-                note="Level 'other' (necessary conditions): the floor(b/usable)+1 transaction bound and the merging of rows into blocks are not decided. The row rule names the accumulator's fields x_left / x_right / y (the property's own anchors) and fails closed if they are gone."),
+                technique="event counting on interpreted traces (window set-ups per fill, loop depth of SPI writes), capacity constants read from heapless::Vec type arguments, path-infeasibility rule on the row accumulator's next() under the stated in-bounds precondition, relational loop invariant (conserved quantity) plus entailment for the SPI transaction bound",
+                text="Exactly one CASET/RASET/RAMWR per successful fill_solid / fill_contiguous and none in a loop (clear is the default); with batch, draw_iter never falls back to single-pixel bursts and 2 <= row capacity <= block capacity; the row accumulator hands a row on, while pixels keep coming, only on paths where 'the pixel just pulled is the right-hand neighbour on the same line and the row is not full' is infeasible (so a run is cut only at the capacity); no SPI write sits in the per-pixel staging loop; the SPI transaction bound of send_pixels: every write after which more pixels are taken from the stream carries exactly N*floor(len/N) bytes, hence at most floor(b/usable)+1 transactions (from the loop invariant 'staged bytes = N x chunks handed out', a conserved quantity found by Houdini, and the exact count of the ChunksExact iterator).",
+                note="Level 'other': the bound is decided for send_pixels (send_repeated_pixel's burst sizes follow from C06's telescoping rule); the merging of rows into blocks is not decided (the property does not require it). A transport that flushes from inside a single per-pixel loop is reported as not provably full (it would need a modular invariant on the staged length). The row rule names the accumulator's fields x_left / x_right / y (the property's own anchors) and fails closed if they are gone."),
 }
 
 NOT_APPLICABLE = {
